@@ -19,7 +19,8 @@ EXPLANATION = (
     "left-operand-first order, every circuit-from-circuit construction carries the width; (D4) to_unitary refuses "
     "non-gate operations; (D5) numeric and symbolic embedding paths receive identical arguments and apply() "
     "multiplies the lifted matrix from the left; (D6) _lift_matrix places identity blocks for low indices on the "
-    "left and conjugates gate by the permutation with consistent inversion parity."
+    "left and conjugates gate by the permutation with consistent inversion parity. "
+    "(D2e) a circuit without operations yields the identity (fold with an initial value or an emptiness guard)."
 )
 RULE_TEXT = (
     "instances = anchored functions and the call sites/expressions inside them (producer calls, accumulator "
